@@ -4,6 +4,7 @@ From Coq Require Import ZArith List.
 From Verif Require Import Lib.Params Lib.Octets Spec.Edwards Model.Outcome Model.Utils
   Model.BabyJub Model.Eddsa Proofs.OctetsProofs Proofs.UtilsProofs Proofs.CompressProofs
   Proofs.EddsaCodecProofs.
+From Verif Require Gen.BigIntRoutines Proofs.BigIntEqUtils Proofs.BigIntEqCodec.
 Local Open Scope Z_scope.
 
 Notation oc := (on_curve q ca cd).
@@ -99,6 +100,25 @@ Proof.
         (conj PkUnmarshalText_never_panics (conj HexDecode_never_panics SigDecompress_never_panics))))).
 Qed.
 
+(* TRANSLATOR TIE: tools/bigintgen regenerates value-level Gallina from the Go source of these
+   functions at every run (Gen/BigIntRoutines.v); it equals the hand-written model the theorems
+   above are about, for all arguments.  An edit of the Go function breaks this. *)
+Theorem C15_model_is_the_source :
+  (forall v, BigIntRoutines.utils_BigIntLEBytes v = BigIntLEBytes v) /\
+  (forall b, BigIntRoutines.utils_SetBigIntFromLEBytes b = SetBigIntFromLEBytes b) /\
+  (forall s, BigIntRoutines.babyjub_Signature_Compress s = SigCompress s) /\
+  (forall buf, length buf = 64%nat -> BigIntRoutines.babyjub_Signature_Decompress buf = SigDecompress buf) /\
+  (forall src, BigIntRoutines.babyjub_Signature_Scan src = SigScan src) /\
+  (forall src, BigIntRoutines.babyjub_PublicKey_Scan src = PkScan src) /\
+  (forall h, BigIntRoutines.babyjub_PublicKey_UnmarshalText h = PkUnmarshalText h) /\
+  (forall h, BigIntRoutines.babyjub_DecompressSig h = DecompressSig h).
+Proof.
+  exact (conj BigIntEqUtils.gen_utils_BigIntLEBytes_eq (conj BigIntEqUtils.gen_utils_SetBigIntFromLEBytes_eq
+        (conj BigIntEqCodec.gen_babyjub_Signature_Compress_eq (conj BigIntEqCodec.gen_babyjub_Signature_Decompress_eq
+        (conj BigIntEqCodec.gen_babyjub_Signature_Scan_eq (conj BigIntEqCodec.gen_babyjub_PublicKey_Scan_eq
+        (conj BigIntEqCodec.gen_babyjub_PublicKey_UnmarshalText_eq BigIntEqCodec.gen_babyjub_DecompressSig_eq))))))).
+Qed.
+
 Print Assumptions C15_le_roundtrip.
 Print Assumptions C15_hexdecodeinto_ok_iff.
 Print Assumptions C15_sig_roundtrip.
@@ -108,3 +128,4 @@ Print Assumptions C15_decompresssig_roundtrip.
 Print Assumptions C15_sig_scan_value.
 Print Assumptions C15_sig_scan_ok_iff.
 Print Assumptions C15_total.
+Print Assumptions C15_model_is_the_source.
